@@ -60,6 +60,33 @@ def impure_arm(fx, variant):
     return None
 
 
+def deco_rule(chk, fx):
+    """two cooperating sites: what the code generator executes for a definition, the purity test must look at"""
+    chk.rule('C12-deco', 'the code generator calls every decorator of a subroutine definition when the definition is executed (emit_expr(deco) + a call per decorator in '
+                         'PyCodeGenerator::emit_subr_def), so the Def arm of SideEffectChecker::is_impure inspects `decorators` (procedure type or impure expression): otherwise an '
+                         'unused function under `@register!` is erased at -o 1 together with the effect of the decorator')
+    gen = None
+    for f in fx.file('crates/erg_compiler/codegen.rs')['fns']:
+        if T.norm(f['path']).startswith('PyCodeGenerator::'):
+            for m in T.walk(f['body']):
+                if m.get('k') == 'Match' and m.get('src') == 'ForLoopDesugar' and 'decorators' in T.show(m['x']) and any(c.get('k') == 'MCall' and c['n'] == 'emit_expr' for c in T.calls(m)):
+                    gen = T.norm(f['path'])
+    if gen is None:
+        chk.ok('C12-deco', 'no-runtime-decorators', sample='the code generator does not evaluate decorators of definitions')
+        return
+    arm = impure_arm(fx, 'hir::Expr::Def')
+    if not chk.need(arm is not None, 'is_impure: no Def arm'):
+        return
+    reads = [n for n in T.walk(arm['b']) if n.get('k') == 'Field' and n.get('n') == 'decorators']
+    judged = any(c.get('k') in ('Call', 'MCall') and (T.last_seg(T.callee(c) or c.get('n') or '') in ('is_impure', 'is_procedure', 'is_procedural')) for n in T.walk(arm['b'])
+                 if n.get('k') in ('MCall', 'Match') and 'decorators' in T.show(n) for c in T.calls(n))
+    if reads and judged:
+        chk.ok('C12-deco', 'Def', sample='%s evaluates decorators; is_impure/Def inspects them' % gen)
+    else:
+        chk.bad('C12-deco', 'SideEffectChecker::is_impure', 'decorators-ignored', '%s evaluates and calls every decorator of a definition, but the Def arm of is_impure never looks at '
+                '`decorators`: `@register!` over an unused function `handler() = 1` prints at -o 0 and is erased at -o 1' % gen, EFF, arm['l'])
+
+
 def def_sig_tested(fx):
     """guard of the `Def.sig` exception: every value the Def arm can produce has `<def>.sig.is_procedural()` as a disjunct"""
     arm = impure_arm(fx, 'hir::Expr::Def')
@@ -195,5 +222,6 @@ def run(chk):
         else:
             chk.bad('C12-R3', 'SideEffectChecker::is_impure', 'Call:' + T.show(n), 'is_impure decides whether a call is effectful with `%s`, i.e. from the type of the call *result*, '
                     'not from the callee (call.obj / attr_name): `x = print! "a"` is judged pure' % T.show(n), EFF, n['l'])
+    deco_rule(chk, fx)
     return ('Dominance rule on the erasure sites of optimize.rs (conjunct analysis of the enclosing conditions), opt_level 0 bypass, visitor completeness and callee-based '
             'classification of SideEffectChecker::is_impure. Decides these necessary conditions; equality of output across optimisation levels is not decided.'), {}
